@@ -58,5 +58,16 @@ CLAIMED["C12"] = dict(
     note="Trusted: Lean kernel, harness/door, tls-parser internals beyond the modelled walk, rustls on the replayed bytes, BoringSSL's "
          "client random on QUIC. Records whose first handshake message is not a ClientHello are outside the model.",
 )
+CLAIMED["C15"] = dict(
+    text="Unbounded Lean theorems about the SOCKS5 client model: every message the client can write is the image of an encoder that "
+         "an independent RFC 1928/1929 (and extended-auth TLV) reader parses back to the same fields, or nothing is written (names > 255, "
+         "user/password > 255); offered methods reflect the credentials; Basic credentials are split at the first colon; the dialogue "
+         "proceeds only if the server selected an offered method and reported success; every non-zero reply fails the request with the "
+         "documented mapping (03/04 unreachable, 06 timed out); every strict prefix of a reply is an I/O error; UDP header wrap/unwrap "
+         "round-trips and never panics. Tied to socks5_client.rs / socks5_forwarder.rs by ~4k scripted dialogues per run over an "
+         "in-memory pipe (bytes sent and outcome compared), the forwarder over loopback TCP, and a real UDP association.",
+    note="Trusted: Lean kernel, harness/door, base64 (decoded credentials are model inputs), tokio's read_exact/duplex, the kernel's UDP "
+         "connect (an IPv6 relay address fails on the IPv4-bound socket: model follows the observed behaviour).",
+)
 NOT_CLAIMED = {p: "not yet built in this framework (planned, see DESIGN.md section 5)" for p in
-               ["C01", "C02", "C05", "C07", "C08", "C09", "C10", "C13", "C14", "C15", "C16", "C17", "C18", "C19", "C20"]}
+               ["C01", "C02", "C05", "C07", "C08", "C09", "C10", "C13", "C14", "C16", "C17", "C18", "C19", "C20"]}
